@@ -13,10 +13,12 @@ import (
 	"fmt"
 	"math/big"
 	"net"
+	"net/url"
 	"os"
 	"path/filepath"
 	"runtime"
 	"strconv"
+	"strings"
 	"sync"
 	"sync/atomic"
 	"testing"
@@ -161,7 +163,102 @@ var tlsCredKinds = []string{"plaintext", "tls-no-client-cert", "self-signed-perm
 	"valid-client-test02-followed-by-forged-client-test01", "valid-unpermitted-client-followed-by-forged-client-test01",
 	"self-signed-permitted-name-followed-by-genuine-client-certificate",
 	"self-made-authority-flagged-permitted-name", "self-made-authority-flagged-permitted-name-followed-by-genuine-client-certificate",
-	"self-made-authority-flagged-permitted-name-followed-by-configured-authority-certificate"}
+	"self-made-authority-flagged-permitted-name-followed-by-configured-authority-certificate",
+	// Certificates the configured authority really issued (its key is among the repository's test resources), whose
+	// subject is one client and whose other name-bearing fields mention another: the identity is the subject.
+	"issued-subject-client-test02-alt-names-client-test01-and-own", "issued-subject-client-test03-alt-name-client-test01",
+	"issued-subject-client-test02-alt-name-client-test01-only", "issued-subject-client-test03-organisation-and-unit-client-test01",
+	"issued-subject-client-test03-email-and-uri-client-test01", "issued-empty-subject-alt-name-client-test01"}
+
+// issuedIdentity is the subject name of the "issued-..." credentials.
+var issuedIdentity = map[string]string{
+	"issued-subject-client-test02-alt-names-client-test01-and-own":    "client-test02",
+	"issued-subject-client-test03-alt-name-client-test01":             "client-test03",
+	"issued-subject-client-test02-alt-name-client-test01-only":        "client-test02",
+	"issued-subject-client-test03-organisation-and-unit-client-test01": "client-test03",
+	"issued-subject-client-test03-email-and-uri-client-test01":        "client-test03",
+	"issued-empty-subject-alt-name-client-test01":                     "",
+	"issued-subject-client-test01-alt-name-signer-test02":             "client-test01",
+	"issued-subject-client-test03-alt-names-signer-test02-and-own":    "client-test03",
+}
+
+var (
+	repoCAOnce sync.Once
+	repoCA     *x509.Certificate
+	repoCAKey  any
+	repoCAErr  error
+)
+
+// repoAuthority loads the key of the repository's testing authority (the one the servers are configured with).
+func repoAuthority() (*x509.Certificate, any, error) {
+	repoCAOnce.Do(func() {
+		blk, _ := pem.Decode(resources.CACrt)
+		if blk == nil {
+			repoCAErr = fmt.Errorf("no authority certificate in the test resources")
+			return
+		}
+		repoCA, repoCAErr = x509.ParseCertificate(blk.Bytes)
+		if repoCAErr != nil {
+			return
+		}
+		repo := os.Getenv("VERIF_REPO")
+		if repo == "" {
+			repo = "/repo"
+		}
+		raw, err := os.ReadFile(filepath.Join(repo, "testing", "resources", "Testing_certificate_authority.key"))
+		if err != nil {
+			repoCAErr = err
+			return
+		}
+		kb, _ := pem.Decode(raw)
+		if kb == nil {
+			repoCAErr = fmt.Errorf("authority key is not PEM")
+			return
+		}
+		if k, err := x509.ParsePKCS1PrivateKey(kb.Bytes); err == nil {
+			repoCAKey = k
+		} else if k, err := x509.ParsePKCS8PrivateKey(kb.Bytes); err == nil {
+			repoCAKey = k
+		} else {
+			repoCAErr = err
+		}
+	})
+	return repoCA, repoCAKey, repoCAErr
+}
+
+// mkIssued issues a client certificate from the repository's testing authority.
+func mkIssued(cred string) (tls.Certificate, error) {
+	ca, caKey, err := repoAuthority()
+	if err != nil {
+		return tls.Certificate{}, err
+	}
+	key, _ := ecdsa.GenerateKey(elliptic.P256(), rand.Reader)
+	tpl := &x509.Certificate{SerialNumber: big.NewInt(time.Now().UnixNano()), Subject: pkix.Name{CommonName: issuedIdentity[cred]}, NotBefore: time.Now().Add(-time.Hour), NotAfter: time.Now().Add(24 * time.Hour),
+		KeyUsage: x509.KeyUsageDigitalSignature, ExtKeyUsage: []x509.ExtKeyUsage{x509.ExtKeyUsageClientAuth}}
+	switch cred {
+	case "issued-subject-client-test02-alt-names-client-test01-and-own":
+		tpl.DNSNames = []string{"client-test01", "client-test02"}
+	case "issued-subject-client-test03-alt-name-client-test01", "issued-subject-client-test02-alt-name-client-test01-only", "issued-empty-subject-alt-name-client-test01":
+		tpl.DNSNames = []string{"client-test01"}
+	case "issued-subject-client-test03-organisation-and-unit-client-test01":
+		tpl.Subject.Organization, tpl.Subject.OrganizationalUnit, tpl.Subject.SerialNumber = []string{"client-test01"}, []string{"client-test01"}, "client-test01"
+		tpl.DNSNames = []string{"client-test03"}
+	case "issued-subject-client-test03-email-and-uri-client-test01":
+		tpl.EmailAddresses = []string{"client-test01"}
+		if u, err := url.Parse("spiffe://client-test01"); err == nil {
+			tpl.URIs = []*url.URL{u}
+		}
+	case "issued-subject-client-test01-alt-name-signer-test02":
+		tpl.DNSNames = []string{"signer-test02"}
+	case "issued-subject-client-test03-alt-names-signer-test02-and-own":
+		tpl.DNSNames = []string{"signer-test02", "client-test03"}
+	}
+	der, err := x509.CreateCertificate(rand.Reader, tpl, ca, &key.PublicKey, caKey)
+	if err != nil {
+		return tls.Certificate{}, err
+	}
+	return tls.Certificate{Certificate: [][]byte{der}, PrivateKey: key}, nil
+}
 
 func (w *tlsWorld) dial(srv *tlsServer, cred string) (*grpc.ClientConn, error) {
 	pool := x509.NewCertPool()
@@ -173,6 +270,13 @@ func (w *tlsWorld) dial(srv *tlsServer, cred string) (*grpc.ClientConn, error) {
 			panic(err)
 		}
 		return c
+	}
+	if _, ok := issuedIdentity[cred]; ok {
+		c, err := mkIssued(cred)
+		if err != nil {
+			return nil, fmt.Errorf("issuing %s: %w", cred, err)
+		}
+		cfg.Certificates = []tls.Certificate{c}
 	}
 	switch cred {
 	case "plaintext":
@@ -481,7 +585,7 @@ func runTLS(t *testing.T, rc *RunCtx) {
 	msg, what, err := m.call(ctx, cc, tc.wallet, uint64(idx+1)+rc.Seed%1000*1000)
 	rc.Logf("%s -> %q err=%v", name, what, err)
 	trusted := !tc.noCA && (cred == "valid-unpermitted-client" || cred == "valid-client-test01" || cred == "valid-client-test02" || cred == "valid-peer-signer-test02" ||
-		cred == "valid-client-test02-followed-by-forged-client-test01" || cred == "valid-unpermitted-client-followed-by-forged-client-test01")
+		cred == "valid-client-test02-followed-by-forged-client-test01" || cred == "valid-unpermitted-client-followed-by-forged-client-test01" || strings.HasPrefix(cred, "issued-"))
 	sensitive := what == "SIGNATURE" || what == "ACCOUNTS" || what == "ACCOUNT-CREATED" || what == "SHARE" || what == "SUCCEEDED" || what == "PREPARED" || what == "EXECUTED" || what == "COMMITTED" || what == "ABORTED"
 	after, _ := srv.node.Inst.Export()
 	changed := ExportString(trimEmpty(after)) != ExportString(trimEmpty(before))
@@ -498,6 +602,9 @@ func runTLS(t *testing.T, rc *RunCtx) {
 		rc.Stats.Inc("trusted_calls", 1)
 		identity := map[string]string{"valid-unpermitted-client": "client-test03", "valid-client-test01": "client-test01", "valid-client-test02": "client-test02", "valid-peer-signer-test02": "signer-test02",
 			"valid-client-test02-followed-by-forged-client-test01": "client-test02", "valid-unpermitted-client-followed-by-forged-client-test01": "client-test03"}[cred]
+		if id, ok := issuedIdentity[cred]; ok {
+			identity = id
+		}
 		allowedWallet := map[string]string{"client-test01": "Wallet 1", "client-test02": "Wallet 2"}[identity]
 		isDKG := len(m.Name) > 4 && m.Name[:4] == "DKG."
 		mayServe := (!isDKG && allowedWallet == tc.wallet) || (isDKG && false)
@@ -527,7 +634,8 @@ func runPeerEdge(t *testing.T, rc *RunCtx) {
 	w := getTLSWorld(t, rc)
 	creds := []string{"plaintext", "tls-no-client-cert", "valid-client-test01", "valid-unpermitted-client", "self-signed-peer-name", "other-authority-peer-name",
 		"valid-client-test01-followed-by-public-certificate-of-peer", "valid-unpermitted-client-followed-by-public-certificate-of-peer",
-		"self-signed-peer-name-followed-by-public-certificate-of-peer", "valid-peer-signer-test03"}
+		"self-signed-peer-name-followed-by-public-certificate-of-peer", "valid-peer-signer-test03",
+		"issued-subject-client-test01-alt-name-signer-test02", "issued-subject-client-test03-alt-names-signer-test02-and-own"}
 	msgs := []string{"prepare", "contribute", "execute", "commit", "abort"}
 	base, _ := strconv.ParseUint(rc.Param("_seed_base", "0"), 10, 64)
 	idx := int(rc.Seed - base)
